@@ -71,6 +71,10 @@ type jobSpec struct {
 	Path   string              `json:"path"`
 	Params map[string][]string `json:"params,omitempty"`
 	Rules  []relRule           `json:"rules,omitempty"`
+	// SD: the service discovery section of the job: "" = one static target, "static2" = two static targets with a
+	// label, "file" = file_sd_configs (kvass takes the targets from the discovery updates it is fed, whatever
+	// mechanism produced them)
+	SD string `json:"sd,omitempty"`
 }
 
 type grpSpec struct {
@@ -137,8 +141,20 @@ func (j *jobSpec) yaml(indent string) string {
 			}
 		}
 	}
-	w("  static_configs:")
-	w("  - targets: ['placeholder:1']")
+	switch j.SD {
+	case "static2":
+		w("  static_configs:")
+		w("  - targets: ['placeholder:1', 'placeholder:2']")
+		w("    labels:")
+		w("      sd: edited")
+	case "file":
+		w("  file_sd_configs:")
+		w("  - files: ['/etc/prometheus/sd/*.json']")
+		w("    refresh_interval: 45s")
+	default:
+		w("  static_configs:")
+		w("  - targets: ['placeholder:1']")
+	}
 	return b.String()
 }
 
